@@ -466,6 +466,7 @@ func (w *c20Walk) cancel() {
 
 // c20H is the register machine over the real code.
 type c20H struct {
+	ext     bool   // an entry point of harness/c20_d2.go was executed: the history is diffed against `heapx.run`
 	outside string // non-empty: a valid call outside the model's fragment was executed; from there on the history is judged by (S) only
 	vals  []cty.Value
 	gos   []*c20Go
